@@ -29,7 +29,8 @@ func init() {
 	families["builtin"] = func(t *toks) string {
 		parts := []string{}
 		for _, f := range []spg.CTFlag{spg.Uppers, spg.Lowers, spg.Digits, spg.Symbols, spg.Ambiguous, spg.Letters, spg.All, spg.None} {
-			parts = append(parts, fmt.Sprintf("class%d=%s", uint32(f), hxs(spg.CharRecipe{Length: 1, Allow: f}.Alphabet())))
+			one := spg.CharRecipe{Length: 1, Allow: f} // a variable, so that the call compiles whatever the receiver kind
+			parts = append(parts, fmt.Sprintf("class%d=%s", uint32(f), hxs(one.Alphabet())))
 		}
 		cr := spg.NewCharRecipe(17)
 		parts = append(parts, fmt.Sprintf("newchar=%d,%d,%d,%d,%s,%d,%s", cr.Length, uint32(cr.Allow), uint32(cr.Require), uint32(cr.Exclude),
